@@ -74,15 +74,15 @@ pub fn expected_probes(name: &str) -> Vec<&'static str> {
         "c12-flood" => vec!["counter_taken_past_65535", "pending_buffer_grown_past_64k", "more_than_65536_pages_in_one_transfer"],
         "c12-many-pages" | "c13-many-pages" => vec!["more_than_256_pages_in_one_transfer"],
         "c17-twin" => vec!["long_session_on_one_serial_bus", "task_switches", "op_succeeded_both_ways", "op_failed_both_ways", "reconfigure_as_other_type", "two_frames_in_line_together", "simulated_read_timeouts", "eintr", "short_write"],
-        "c17-bridge" => vec!["frame_line_with_a_prefix_at_the_bridge", "transfer_of_more_than_64k_through_the_bridge", "undecodable_line_at_bridge", "frame_line_with_a_non_hex_character", "bridge_wrote_reply", "bridge_silent_no_reply", "eintr", "short_write"],
+        "c17-bridge" => vec!["frame_line_with_a_sign_character_for_a_leading_zero", "unknown_frame_one_byte_command_with_trailing_bytes", "frame_line_with_a_prefix_at_the_bridge", "transfer_of_more_than_64k_through_the_bridge", "undecodable_line_at_bridge", "frame_line_with_a_non_hex_character", "bridge_wrote_reply", "bridge_silent_no_reply", "eintr", "short_write"],
         "c14-shared-bus" => vec!["sign_that_joined_the_bus_with_a_history", "transfer_of_30_to_70_pages", "bus_with_8_or_more_signs", "two_signs_in_PixelsInProgress", "chunk_absorbed_by_two_signs", "absent_address", "reply_from_sign_index_ge_1", "task_switches"],
-        "c02-wire-damage" => vec!["ok_same_frame_case_change", "ok_same_frame_terminator_only", "err_invalid", "err_length", "err_checksum", "variants_through_stream_reader", "lf_inserted_mid_line", "frame_with_consistent_length_neighbour", "frame_with_maximal_field_sum"],
+        "c02-wire-damage" => vec!["frame_extending_the_frame_decoded_just_before", "related_frame_decoded_before_every_damaged_line", "damaged_line_read_with_a_frame_queued_behind_it", "ok_same_frame_case_change", "ok_same_frame_terminator_only", "err_invalid", "err_length", "err_checksum", "variants_through_stream_reader", "lf_inserted_mid_line", "frame_with_consistent_length_neighbour", "frame_with_maximal_field_sum"],
         "c15-read" => vec!["frame_line_with_a_text_prefix", "line_of_plain_text", "hard_error_with_os_code", "eintr", "eof", "io_error", "eintr_mid_line", "line_without_lf_at_eof", "line_ending_in_cr_at_eof", "frame_text_with_near_miss_line_ending", "line_length_disagrees_with_its_length_field", "error_at_first_call", "error_at_last_call", "hard_error_placements", "eintr_placements"],
         "c15-write" => vec!["hard_error_with_os_code", "eintr", "short_write", "io_error", "write_zero", "short_write_1_byte", "hard_error_placements", "write_zero_placements", "eintr_placements", "one_byte_write_placements"],
         "c15-compositions" => vec!["compositions_enumerated"],
         "c16-serial-exchange" => vec!["data_chunk_with_borrowed_payload", "eintr", "short_write", "io_error", "timeout", "eof", "write_zero", "unknown_that_looks_like_hello", "fault_at_each_op_index", "long_conversation_with_failing_replies", "reply_with_a_non_hex_character"],
         "c20-port-setup" => vec!["prior_framing_value_unreported", "transient_refusal", "configured_twice", "prior_speed_unreported"],
-        "c18-pacing" => vec!["chunk_followed_by_paced_write", "in_progress_report_paced", "bus_recreated_on_same_port", "long_run_of_in_progress_reports", "long_run_of_successful_transfer_reports", "noise_line_before_the_reply", "payload_of_one_repeated_byte"],
+        "c18-pacing" => vec!["caller_thread_holds_an_unpark_token", "chunk_followed_by_paced_write", "in_progress_report_paced", "bus_recreated_on_same_port", "long_run_of_in_progress_reports", "long_run_of_successful_transfer_reports", "noise_line_before_the_reply", "payload_of_one_repeated_byte"],
         "c10-adversarial-bus" => vec!["bus_error", "bus_error_with_os_code", "near_miss_frame_as_reply", "foreign_address_equal_to_a_number_of_the_conversation", "caller_keeps_no_handle_on_the_bus", "conversation_ge_10_turns", "polled_3_or_more_times", "foreign_reply_at:Hello1", "foreign_reply_at:ResultQuery", "foreign_reply_at:Poll", "foreign_reply_at:RequestAck", "foreign_reply_at:CinHello", "foreign_reply_at:FinalQuery"],
         "c11-adversarial-bus" => vec![
             "caller_keeps_no_handle_on_the_bus",
